@@ -8,7 +8,7 @@
              class seen by the caller and the recovery observation afterwards.
    mismatch: the model (Crash.op_prog under Proc.crash_list / Proc.run_fault) predicts something else.
    violation: the oracle (Crash.cinv_b / post_ok), evaluated on the IMPLEMENTATION's observation, fails. *)
-From SV Require Import Base Json MD5 Canon FS Proc Crash.
+From SV Require Import Base Json MD5 Canon FS Proc Crash WsNames.
 Import ListNotations.
 
 (* float lexeme table (oracle for float.__repr__) *)
@@ -164,6 +164,18 @@ Definition mismatch_C11 (c : case_C11) : bool :=
 Definition holds_obs (c : case_C11) (o : fobs) : bool :=
   cinv_b (frepr_of c) (k_op c) (k_pre c) (fo_tree o) (fo_ws o).
 
+(* after a handled fault: the pre-state, or a state in which check() reports an affected directory
+   (removals are exempt: they destroy data by design and rmtree is not atomic) *)
+Definition detectable (c : case_C11) (o : fobs) : bool :=
+  existsb (fun w =>
+    match wo_reported w with
+    | Some rep => existsb (fun i => under_any (affected (frepr_of c) (k_op c) (k_pre c)) (wo_ws w ++ [i])) rep
+    | None => false
+    end) (fo_ws o).
+
+Definition fault_state_ok (c : case_C11) (o : fobs) : bool :=
+  is_removal (k_op c) || others_same [] (k_pre c) (fo_tree o) || detectable c o.
+
 Definition holds_C11 (c : case_C11) : bool :=
   match k_probe c with
   | PCrash out sts =>
@@ -175,7 +187,7 @@ Definition holds_C11 (c : case_C11) : bool :=
   | PFault _ _ _ out post =>
       match out with
       | None => post_ok (frepr_of c) (k_op c) (k_pre c) (fo_tree post) && holds_obs c post   (* never a silent partial success *)
-      | Some _ => holds_obs c post                 (* an exception, and the pre-state or a CInv state *)
+      | Some _ => holds_obs c post && fault_state_ok c post   (* an exception, and the pre-state or a detectable CInv state *)
       end
   end.
 
@@ -183,3 +195,26 @@ Definition violation_C11 (c : case_C11) : bool := negb (holds_C11 c).
 
 Definition mismatches_C11 (cs : list case_C11) : list N := indices_where mismatch_C11 cs.
 Definition violations_C11 (cs : list case_C11) : list N := indices_where violation_C11 cs.
+
+(* known-finding classifier over the INPUT (scenario + probe); idx*100 + tag *)
+(* tag 1: Project.clone — a fault while copying any entry other than the state point file (or on the
+   destination's own mkdir) leaves a destination that validates but is incomplete *)
+Definition known_tag_C11 (c : case_C11) : N :=
+  match k_op c, k_probe c with
+  | KClone ws i dws, PFault s _ _ (Some _) _ =>
+      let d := dst_dir (frepr_of c) (k_op c) (k_pre c) in
+      if negb (str_eqb (last (sg_p s) []) SPF)
+         && negb (ckind_eqb (sg_kind s) SgMkdir && path_eqb (sg_p s) d)
+         && (under d (sg_p s) || under (ws ++ [i]) (sg_p s))
+      then 1 else 0
+  | _, _ => 0
+  end%N.
+
+Fixpoint known_aux_C11 (cs : list case_C11) (i : N) : list N :=
+  match cs with
+  | [] => []
+  | c :: cs' =>
+      (if violation_C11 c && negb (N.eqb (known_tag_C11 c) 0) then [i * 100 + known_tag_C11 c] else [])%N
+      ++ known_aux_C11 cs' (i + 1)%N
+  end.
+Definition known_C11 (cs : list case_C11) : list N := known_aux_C11 cs 0%N.
